@@ -95,7 +95,7 @@ Definition spec_answer (s : image_spec) (q : sx) : sx :=
     | None => sx_err "out-of-range"
     end
   else if is op "segment" then
-    match (if (0 <=? gI a1) then nth_error (i_segments s) (Z.to_nat (gI a1)) else None) with
+    match nth_seg s (gI a1) with
     | Some p => sx_ok (sx_segment (exp_segment s p))
     | None => sx_err "out-of-range"
     end
